@@ -87,6 +87,53 @@ func ruleEffectRecv(p *Prog, r *Report, fns []*ssa.Function, rule string) {
 	}
 }
 
+// ruleEffectInput: the package-level decoders never write to the byte slice they are given — not to its elements and, through
+// append, not to the spare capacity behind it (which may be the caller's next document). For each exported function with a
+// []byte parameter: no write instruction reachable from it can target the memory of that argument.
+func ruleEffectInput(p *Prog, r *Report) {
+	const rule = "EFFECT.input"
+	a := p.PointsTo()
+	p.modelGaps(r, a)
+	n := 0
+	for _, f := range p.PkgFuncs("mxj") {
+		if !p.Exported(f) || f.Signature.Recv() != nil || len(f.Blocks) == 0 {
+			continue
+		}
+		for i, prm := range f.Params {
+			if !isByteSlice(prm.Type()) {
+				continue
+			}
+			eo, ok := a.extObj[extKey{f, i}]
+			if !ok {
+				continue
+			}
+			n++
+			name := p.Name(f)
+			reach, prev := a.reachFuncs(f)
+			bad, nw := 0, 0
+			for _, w := range a.writes {
+				if !reach[w.Fn] {
+					continue
+				}
+				nw++
+				if a.pts[w.Target].has(eo) {
+					bad++
+					if bad <= 3 {
+						r.Bad(rule, name, fmt.Sprintf("input %s unmodified (%s in %s)", prm.Name(), w.What, p.Name(w.Fn)), p.Pos(w.Instr.Pos()),
+							"this write may modify the caller's byte slice (or the memory behind it, within its capacity); targets: "+a.describe(a.pts[w.Target].toMap()),
+							a.pathTo(prev, f, w.Fn))
+					}
+				}
+			}
+			if bad == 0 {
+				r.OK(rule, name, "input "+prm.Name()+" unmodified", p.Pos(f.Pos()), fmt.Sprintf("%d write instructions in %d reachable functions, none can target the argument's memory", nw, len(reach)))
+			}
+		}
+	}
+	_ = n
+	r.Floor(rule, 5)
+}
+
 // ruleEffectGlobal: no function reachable from a non-setter API writes a package variable or memory reachable from one.
 func ruleEffectGlobal(p *Prog, r *Report) {
 	const rule = "EFFECT.global"
